@@ -68,12 +68,12 @@ func c05Worker() {
 				continue
 			}
 			if time.Since(st) > c05Deadline {
-				reply(Ev{"outcome": "hang", "panic": "", "site": "", "alloc": 0, "input_same": true})
+				reply(Ev{"outcome": "hang", "panic": "", "site": "", "alloc": 0, "stack": 0, "input_same": true})
 				os.Exit(3)
 			}
 			runtime.ReadMemStats(&ms)
 			if ms.HeapAlloc > c05HeapLimit {
-				reply(Ev{"outcome": "oom", "panic": "", "site": "", "alloc": int(c05HeapLimit), "input_same": true})
+				reply(Ev{"outcome": "oom", "panic": "", "site": "", "alloc": int(c05HeapLimit), "stack": 0, "input_same": true})
 				os.Exit(4)
 			}
 		}
@@ -95,11 +95,18 @@ func c05Worker() {
 			if input == nil {
 				input = []byte{}
 			}
+			if rep := GI0(req["rep"]); rep > 1 {
+				input = bytes.Repeat(input, rep) // long inputs are described, not transmitted
+			}
 			keep := append([]byte(nil), input...)
 			arg := GI(req["arg"])
-			r := Ev{"outcome": "", "panic": "", "site": "", "alloc": 0, "input_same": true}
+			r := Ev{"outcome": "", "panic": "", "site": "", "alloc": 0, "stack": 0, "input_same": true}
 			var m0, m1 runtime.MemStats
 			runtime.ReadMemStats(&m0)
+			for k := 0; k < 12 && m0.StackInuse > 4<<20; k++ { // a stack grown by an earlier call shrinks at collections
+				runtime.GC()
+				runtime.ReadMemStats(&m0)
+			}
 			bmu.Lock()
 			busy, started = true, time.Now()
 			bmu.Unlock()
@@ -122,6 +129,14 @@ func c05Worker() {
 				a = 2000000000
 			}
 			r["alloc"] = int(a)
+			// the goroutine's stack keeps the size it grew to until a later collection shrinks it
+			if m1.StackInuse > m0.StackInuse {
+				st := m1.StackInuse - m0.StackInuse
+				if st > 2000000000 {
+					st = 2000000000
+				}
+				r["stack"] = int(st)
+			}
 			r["input_same"] = bytes.Equal(input, keep)
 			reply(r)
 		}
@@ -166,26 +181,45 @@ type c05Child struct {
 	cmd *exec.Cmd
 	in  *bufio.Writer
 	out *bufio.Reader
+	err *tailBuf
 }
+
+// tailBuf keeps the first bytes a worker wrote to its standard error (where the Go runtime reports a fatal error
+// that no recover can catch: stack overflow, out of memory, concurrent map access).
+type tailBuf struct {
+	mu sync.Mutex
+	b  []byte
+}
+
+func (t *tailBuf) Write(p []byte) (int, error) {
+	t.mu.Lock()
+	if len(t.b) < 4096 {
+		t.b = append(t.b, p[:minInt(len(p), 4096-len(t.b))]...)
+	}
+	t.mu.Unlock()
+	return len(p), nil
+}
+func (t *tailBuf) String() string { t.mu.Lock(); defer t.mu.Unlock(); return string(t.b) }
 
 var c05c *c05Child
 
 func c05Start() *c05Child {
 	cmd := exec.Command(os.Args[0], "c05worker", "C05")
-	cmd.Stderr = os.Stderr
+	tb := &tailBuf{}
+	cmd.Stderr = tb
 	w, _ := cmd.StdinPipe()
 	r, _ := cmd.StdoutPipe()
 	if err := cmd.Start(); err != nil {
 		die("cannot start C05 worker: %v", err)
 	}
-	return &c05Child{cmd: cmd, in: bufio.NewWriter(w), out: bufio.NewReaderSize(r, 1<<20)}
+	return &c05Child{cmd: cmd, in: bufio.NewWriter(w), out: bufio.NewReaderSize(r, 1<<20), err: tb}
 }
 
 func c05Call(e Ev) Ev {
 	if c05c == nil {
 		c05c = c05Start()
 	}
-	b, _ := json.Marshal(Ev{"op": e["op"], "in": e["in"], "arg": e["arg"]})
+	b, _ := json.Marshal(Ev{"op": e["op"], "in": e["in"], "arg": e["arg"], "rep": GI0(e["rep"])})
 	c05c.in.Write(b)
 	c05c.in.WriteByte('\n')
 	c05c.in.Flush()
@@ -206,9 +240,18 @@ func c05Call(e Ev) Ev {
 			json.Unmarshal(r.line, &resp)
 		}
 		if resp == nil {
-			resp = Ev{"outcome": "crash", "panic": "worker died without a report", "site": "", "alloc": 0, "input_same": true}
+			child.cmd.Wait()
+			resp = Ev{"outcome": "crash", "panic": "worker died without a report", "site": "", "alloc": 0, "stack": 0, "input_same": true}
+			// the Go runtime names a fatal error on standard error before it ends the process: that is the library's
+			// failure (no recover can catch it); anything else that kills the worker is a failure of the harness
+			if msg := child.err.String(); strings.Contains(msg, "fatal error:") || strings.Contains(msg, "goroutine stack exceeds") {
+				resp["outcome"] = "fatal"
+				resp["panic"] = c05FirstLine(msg)
+			} else {
+				os.Stderr.WriteString(msg)
+			}
 		}
-		if o := GS(resp["outcome"]); o == "hang" || o == "oom" || o == "crash" {
+		if o := GS(resp["outcome"]); o == "hang" || o == "oom" || o == "crash" || o == "fatal" {
 			child.cmd.Wait()
 			c05c = nil
 		}
@@ -216,9 +259,27 @@ func c05Call(e Ev) Ev {
 		child.cmd.Process.Kill()
 		child.cmd.Wait()
 		c05c = nil
-		resp = Ev{"outcome": "hang", "panic": "worker unresponsive", "site": "", "alloc": 0, "input_same": true}
+		resp = Ev{"outcome": "hang", "panic": "worker unresponsive", "site": "", "alloc": 0, "stack": 0, "input_same": true}
 	}
 	return resp
+}
+
+func c05FirstLine(msg string) string {
+	for _, l := range strings.Split(msg, "\n") {
+		if strings.Contains(l, "fatal error:") || strings.Contains(l, "goroutine stack exceeds") {
+			return strings.TrimSpace(l)
+		}
+	}
+	return "fatal error"
+}
+
+// c05Len: the length of the input an event describes ("in" repeated "rep" times).
+func c05Len(e Ev) int {
+	n := len(GB(e["in"]))
+	if rep := GI0(e["rep"]); rep > 1 {
+		n *= rep
+	}
+	return n
 }
 
 // c05Bad counts, per entry point, the calls that ended without a result (hang / out of memory, each of which costs
@@ -230,7 +291,8 @@ func (c05) Exec(h []Ev) []Ev {
 	for _, e := range h {
 		if c05Bad[GS(e["op"])] >= 3 {
 			e["outcome"], e["panic"], e["site"], e["alloc"], e["input_same"] = "not-run", "", "", 0, true
-			e["len"] = len(GB(e["in"]))
+			e["stack"] = 0
+			e["len"] = c05Len(e)
 			e["kind"] = c05Kind[GS(e["op"])]
 			continue
 		}
@@ -249,14 +311,21 @@ func (c05) Exec(h []Ev) []Ev {
 			os.Unsetenv("C05_DEADLINE_S")
 			c05Deadline = 4 * time.Second
 		}
-		if o := GS(r["outcome"]); o == "hang" || o == "oom" {
+		if GS(r["outcome"]) == "fatal" {
+			// a fatal error must show again in a fresh worker before it is reported
+			if r2 := c05Call(e); GS(r2["outcome"]) != "fatal" {
+				r = r2
+			}
+		}
+		if o := GS(r["outcome"]); o == "hang" || o == "oom" || o == "fatal" {
 			c05Bad[GS(e["op"])]++
 		}
 		for k, v := range r {
 			e[k] = v
 		}
-		e["len"] = len(GB(e["in"]))
+		e["len"] = c05Len(e)
 		e["alloc"] = GI(e["alloc"])
+		e["stack"] = GI0(e["stack"])
 		e["kind"] = c05Kind[GS(e["op"])]
 	}
 	return h
@@ -274,6 +343,8 @@ func (c05) Class(e Ev) string {
 		lb = "short"
 	case ln <= 188:
 		lb = "packet"
+	case ln >= 1<<20:
+		lb = "huge"
 	}
 	return fmt.Sprintf("%s/%s/%s/%s", GS(e["op"]), GS(e["src"]), lb, GS(e["outcome"]))
 }
@@ -555,6 +626,24 @@ func (c05) Gen(tier string, seed int64, emit func([]Ev)) {
 			if len(st) > 188*2 {
 				one(o.name, st[188*(len(st)/188-1):], r.Intn(1<<16), "tail")
 			}
+		}
+	}
+	// very long streams (described as a unit repeated: 16 MiB and more): nothing may grow with the input beyond a small
+	// multiple - no frame per byte or per packet on the stack (the Go runtime ends the process when a stack passes 1 GB)
+	var nullp, contp, patlike packet.Packet
+	for i := range nullp {
+		nullp[i], contp[i], patlike[i] = 0xff, 0x5a, 0x47
+	}
+	nullp[0], nullp[1], nullp[2], nullp[3] = 0x47, 0x1f, 0xff, 0x10
+	contp[0], contp[1], contp[2], contp[3] = 0x47, 0x01, 0x00, 0x10
+	patlike[0], patlike[1], patlike[2], patlike[3] = 0x47, 0x00, 0x05, 0x10
+	for _, o := range byKind["stream"] {
+		for k, unit := range [][]byte{{0x47}, {0x47, 0x00, 0x05, 0x10}, {0x00}, nullp[:], contp[:], patlike[:]} {
+			rep := (16<<20)/len(unit) + 1 + r.Intn(3)
+			if !dense && (k+len(o.name))%2 == 0 {
+				rep = (1<<20)/len(unit) + 1
+			}
+			emit([]Ev{{"op": o.name, "in": B(unit), "rep": rep, "arg": r.Intn(1 << 16), "src": "huge"}})
 		}
 	}
 	for _, o := range byKind["stream"] {
